@@ -75,7 +75,8 @@ type HarnessSummary struct {
 	Name        string
 	Paths       int
 	ByStatus    map[string]int
-	Violations  map[string]*Violation // first per label
+	Violations  map[string]*Violation   // first per label
+	Alternates  map[string][]*Violation // up to 3 more per label
 	ViolCount   map[string]int
 	Asserts     map[string]int
 	BySolver    map[string]int
@@ -250,6 +251,13 @@ func (s *HarnessSummary) absorb(r *RunResult) {
 		s.ViolCount[v.Label]++
 		if _, ok := s.Violations[v.Label]; !ok {
 			s.Violations[v.Label] = &v
+		} else if len(s.Alternates[v.Label]) < 3 {
+			// further counterexamples for the same obligation, from other paths: replayed only if the first one does
+			// not reproduce natively (e.g. because it leans on an evaluation order the compiler does not use)
+			if s.Alternates == nil {
+				s.Alternates = map[string][]*Violation{}
+			}
+			s.Alternates[v.Label] = append(s.Alternates[v.Label], &v)
 		}
 	}
 	switch r.Status {
